@@ -95,6 +95,35 @@ def rules():
     R += [(fn('byte b = 2 + 3;'), True), (fn('const byte C = 5; byte b = C + 1;'), True), (fn('const byte C = 5; byte b = -C + 9;'), True),
           (fn('const int K = 5; g(K + K);', pre='empty g(byte x) { } empty g(string s) { }'), False)]
     R += [(t, False) for t in frontend.empty_value_programs()]
+    R += scope_rules()
+    return R
+
+
+def scope_rules():
+    """names: a declaration is rejected iff a declaration of the same name made in the same function (parameter or local of an
+    enclosing or the same block) is visible - whether or not a global of that name exists too; shadowing a global once is fine,
+    sibling blocks are independent.  (global exists?) x (first declaration) x (second declaration)"""
+    R = []
+    firsts = [('param', 'int n', ''), ('local', '', 'int n = 1;'), ('none', '', '')]
+    seconds = [('same block', 'byte n = 2;'), ('nested block', '{ byte n = 2; }'), ('if body', 'if (true) { byte n = 2; }'),
+               ('else body', 'if (false) { } else { byte n = 2; }'), ('while body', 'while (false) { byte n = 2; }'),
+               ('for init', 'for (byte n = 2; false; ) { }'), ('for body', 'for (;false;) { byte n = 2; }'),
+               ('nested twice', '{ { byte n = 2; } }'), ('vla', 'int k = 2; byte n[k];'), ('const', 'const byte n = 2;')]
+    for glob in (True, False):
+        g = 'int n = 7;\n' if glob else ''
+        for fk, sig, fdecl in firsts:
+            for sk, sdecl in seconds:
+                src = '%sempty f(%s) { %s %s }\nempty @is_you() { }' % (g, sig, fdecl, sdecl)
+                R.append((src, fk == 'none'))
+            # sibling blocks never clash; a use after the inner block sees the outer declaration again
+            R.append(('%sempty f(%s) { %s { int m = 1; } { int m = 2; } }\nempty @is_you() { }' % (g, sig, fdecl), True))
+        R.append(('%sempty f(int n, byte n) { }\nempty @is_you() { }' % g, False))
+        R.append(('%sempty f(int n) { }\nempty h(int n) { int q = n; }\nempty @is_you() { }' % g, True))
+        # inner block declares, then the enclosing block declares the same name after the inner block ended: allowed
+        R.append(('%sempty f() { { int n = 1; } int n = 2; }\nempty @is_you() { }' % g, True))
+        # try / undo bodies are blocks of the entry point
+        R.append(('%sempty @is_you() { int n = 1; try { int n = 2; } undo { } }' % g, False))
+        R.append(('%sempty @is_you() { try { int n = 2; } undo { int n = 3; } }' % g, True))
     return R
 
 
